@@ -28,6 +28,7 @@ def canon_err(e):
     e = re.sub(r"\x1b\[[0-9;]*m", "", e or "")
     m = re.search(r"ERROR:.*", e, re.S)
     e = (m.group(0) if m else e).strip()
+    e = re.sub(r"[\w./-]*/([\w.-]+\.(?:comp|sys))", r"\1", e)      # a message names a file by the path that led to it (relative to where the compiler was started)
     return re.sub(r"_Anon\d+", "_Anon#", e)[:160]      # anonymous names in a message are renumbered like those of an output
 
 def defined_names(text, synth):
@@ -130,7 +131,7 @@ def run(tier, seed, build):
             plan = []
             for hs in seeds:
                 for nearlier in ([0, 2] if tier == "quick" else [0, 1, 3]):
-                    for where in ("root", "parent"):
+                    for where in ("root", "parent") + (("filedir",) if nearlier == 0 and os.path.dirname(target["base"]) else ()):
                         jobs = []
                         for k in range(nearlier):
                             o = others[k]
@@ -138,6 +139,10 @@ def run(tier, seed, build):
                         for synth in (True, False):
                             if where == "root":
                                 j = {"cwd": troot, "base": target["base"], "includes": target["includes"] or None, "fixed": "fix.fixed" if fixed else None}
+                            elif where == "filedir":      # started in the directory of the top-level file itself
+                                fd = os.path.join(troot, os.path.dirname(target["base"]))
+                                j = {"cwd": fd, "base": os.path.basename(target["base"]), "includes": [os.path.relpath(os.path.join(troot, i), fd) for i in target["includes"]] or None,
+                                     "fixed": os.path.relpath(os.path.join(troot, "fix.fixed"), fd) if fixed else None}
                             else:
                                 j = {"cwd": os.path.dirname(troot), "base": "pT/" + target["base"], "includes": ["pT/" + i for i in target["includes"]] or None, "fixed": "pT/fix.fixed" if fixed else None}
                             # half of the histories go through the command-line entry point (pepper-compiler's own option handling)
